@@ -8,6 +8,17 @@ from ..extract import (HEADER, ExtractError, Tr, ast_dump, body_of, const_int, f
 
 NAME = "Client"
 
+# Registry read by vlib/gen/clientskel.py (statement skeletons of the same functions), filled by generate():
+#   DOCS     "Connector" / "TcpClient" -> the AST documents the guards below were taken from (the very objects, so that
+#            clang node ids mean the same thing in both modules)
+#   SITES    (translation unit, clang node id of an `if` condition) -> name of the guard generated from that condition
+#   SWITCHES (translation unit, clang node id of a `switch`) -> (name of the generated table,
+#            [(labels, statements, class)] in source order, as classified for that table)
+DOCS = {}
+SITES = {}
+SWITCHES = {}
+_TU = ["Connector"]
+
 
 def enum_order(docs, name):
     for d in docs:
@@ -125,7 +136,12 @@ def bound_method(fn):
 
 
 def generate():
+    DOCS.clear()
+    SITES.clear()
+    SWITCHES.clear()
+    _TU[0] = "Connector"
     docs = ast_dump("muduo/net/Connector.cc", "muduo::net::Connector")
+    DOCS["Connector"] = docs
     out = [HEADER % "muduo/net/Connector.cc, Connector.h, TcpClient.cc", "namespace MuduoVerif.Gen.Client\n"]
     out.append("def kInitRetryDelayMs : Nat := %d" % const_int(docs, "kInitRetryDelayMs"))
     out.append("def kMaxRetryDelayMs : Nat := %d\n" % const_int(docs, "kMaxRetryDelayMs"))
@@ -142,6 +158,7 @@ def generate():
         t = Tr(sym, consts)
         c = cond if cond is not None else if_cond(locate_if(fn, *locate, index=index))
         out.append(prop_def(name, params, unparen(t.expr(c)), doc))
+        SITES[(_TU[0], c.get("id"))] = name
 
     # ---- Connector::retry
     retry = the_function(docs, "retry")
@@ -203,6 +220,8 @@ def generate():
             raise ExtractError("connect: switch arm calls %s — cannot classify" % names)
         return {"connecting": "proceed", "retry": "retry", "close": "giveUp"}[cls[0]]
     entries, default = table(switch_arms(conn, "savedErrno"), classify, "connect")
+    for sw in [n for n in walk(body_of(conn)) if n.get("kind") == "SwitchStmt" and mentions(kids(n)[0], "savedErrno")]:
+        SWITCHES[(_TU[0], sw.get("id"))] = ("connectTable", [(ls, ss, classify(ss)) for ls, ss in switch_arms(conn, "savedErrno")])
     out.append("inductive ConnectClass | proceed | retry | giveUp\nderiving DecidableEq, Repr\n")
     out.append("/-- `Connector::connect`: `switch (savedErrno)` -/\ndef connectTable : List (Nat × ConnectClass) :=\n  [" +
                ", ".join("(%d, .%s)" % e for e in entries) + "]\n")
@@ -281,7 +300,9 @@ def generate():
     out.append("/-- `Connector::removeAndResetChannel`: the channel object is destroyed by a queued functor -/\ndef resetChannelQueued : Bool := true\n")
 
     # ---- TcpClient
+    _TU[0] = "TcpClient"
     cdocs = ast_dump("muduo/net/TcpClient.cc", "muduo::net::TcpClient")
+    DOCS["TcpClient"] = cdocs
     rc = the_function(cdocs, "removeConnection")
     guard(rc, "reconnects", [("retry", "Bool"), ("connect", "Bool")], {"retry_": "retry", "connect_": "connect"},
           "`TcpClient::removeConnection`: `if (retry_ && connect_)`", "retry_", "connect_")
@@ -304,6 +325,8 @@ def generate():
     if "stop" not in calls_in(else_) or "runAfter" not in calls_in(else_):
         raise ExtractError("~TcpClient: the else branch no longer stops the connector and parks it on a timer")
     out.append(prop_def("dtorHasConn", [("conn", "Bool")], "conn", "`~TcpClient`: `if (conn)`"))
+    SITES[(_TU[0], if_cond(outer[0]).get("id"))] = "dtorHasConn"
+    SITES[(_TU[0], if_cond(inner[0]).get("id"))] = "dtorForceCloses"
     out.append(prop_def("dtorForceCloses", [("unique", "Bool")], "unique", "`~TcpClient`: `if (unique)` → `conn->forceClose()`"))
     sccb = [n for n in walk(then_) if n.get("kind") == "CXXMemberCallExpr" and strip(kids(n)[0]).get("name") in ("runInLoop", "queueInLoop")]
     if len(sccb) != 1:
